@@ -293,11 +293,23 @@ def job_gate_run(arg):
     pre, cur = gate_election(n, 2, seed, dup=req["dup"])
     pis = [p / 1000 for p in req["alphas"]]
     detail = None
+    # every other run re-uses a client object that has just served a request with a far larger minimum (which ended
+    # in the not-enough-units error): the gate of THIS request depends on its own n and levels only (seeded change C14_C)
+    from elexmodel.client import ModelClient
+
+    client = ModelClient()
+    if seed % 2 == 0:
+        try:
+            synth.run_client(pre, cur, estimands=("turnout",), pis=[0.995], pi_method="nonparametric", features=("x1",),
+                             aggregates=["postal_code", "unit"], client=client)
+        except Exception:  # noqa: BLE001
+            pass
     with SplitRecorder() as rec:
         try:
             synth.run_client(
                 pre,
                 cur,
+                client=client,
                 estimands=setup["estimands"],
                 pis=pis,
                 pi_method=est,
